@@ -528,7 +528,7 @@ def mix_reference(case):
 
 ILLEGAL = ['redeclare_scen', 'redeclare_scen_after_exhaust', 'redeclare_dep', 'affine_int', 'foreign_rvar',
            'unknown_label', 'adapt_after_use', 'adapt_after_formulate', 'ldr_adapt_after_use', 'ldr_redeclare_dep',
-           'ldr_foreign_rvar', 'affine_times_random', 'ldr_times_random']
+           'ldr_foreign_rvar', 'affine_times_random', 'ldr_times_random', 'convex_of_adaptive']
 
 
 def gen_illegal(rng, cfg):
@@ -652,6 +652,34 @@ def gen_illegal(rng, cfg):
             bad = {'op': 'adapt', 'tgt': rng.choice([['v', 'y'], ['i', ['v', 'y'], [0, 1]]]), 'to': zsel('z', [0])}
         bad['expect'] = 'raise'
         ops.append(bad)
+    elif which == 'convex_of_adaptive':
+        # an affinely adaptive decision inside a convex function (or as its affine offset) cannot be represented: its dependence
+        # on z must not be dropped silently - some step up to the solve has to raise
+        ops += [{'op': 'dvar', 'id': 'x', 'm': 'm', 'shape': [2]}, {'op': 'dvar', 'id': 't', 'm': 'm'},
+                {'op': 'supp', 'amb': 'F', 'scen': None, 'set': [['<=', ['norm', ['v', 'z'], 'inf'], ['c', 1.0]]]},
+                {'op': 'adapt', 'tgt': rng.choice([['v', 'y'], ['i', ['v', 'y'], [0, 2]], ['i', ['v', 'y'], 0]]),
+                 'to': rng.choice([zsel('z', [0]), ['v', 'z']])}]
+        yv, xv = ['v', 'y'], ['v', 'x']
+        y0, x0 = ['i', yv, 0], ['i', xv, 0]
+        inner = rng.choice([y0, ['+', y0, ['i', xv, 1]], ['-', x0, y0], ['*', ['c', 2.0], y0], ['-', y0, ['c', 0.5]]])
+        form = rng.randrange(5)
+        if form == 0:
+            bad = ['f', 'abs', inner]
+        elif form == 1:
+            bad = ['+', ['f', 'abs', x0], y0]                                # convex in x, the adaptive decision is the offset
+        elif form == 2:
+            bad = ['-', ['f', 'abs', inner], x0]
+        elif form == 3:
+            bad = ['*', ['c', 3.0], ['f', 'abs', inner]]
+        else:
+            bad = ['norm', rng.choice([yv, ['+', yv, xv], ['-', xv, yv]]), rng.choice([1, 2, 'inf'])]
+        ops.append({'op': 'cons', 'id': 'cb', 'e': ['<=', bad, ['v', 't']], 'expect': 'raise_tail'})
+        ops += [{'op': 'cons', 'id': 'cx', 'e': ['<=', ['f', 'abs', ['v', 'x']], ['c', 1.0]], 'expect': 'raise_tail'},
+                {'op': 'cons', 'id': 'cy', 'e': ['>=', ['v', 'y'], ['@', ['c', [1.0] * n], ['v', 'z']]], 'expect': 'raise_tail'},
+                {'op': 'cons', 'id': 'cy2', 'e': ['<=', ['v', 'y'], ['c', 10.0]], 'expect': 'raise_tail'},
+                {'op': 'st', 'm': 'm', 'ids': ['cb', 'cx', 'cy', 'cy2'], 'expect': 'raise_tail'},
+                {'op': 'obj', 'm': 'm', 'how': 'minsup', 'e': ['E', ['v', 't']], 'amb': 'F', 'expect': 'raise_tail'},
+                {'op': 'solve', 'm': 'm', 'solver': rng.choice(['def', 'grb', 'ort']), 'expect': 'raise_tail'}]
     elif which == 'affine_times_random':
         # an affinely adaptive expression (the decision itself, or a sum / difference / multiple with static decisions and
         # numbers, adaptive part on either side) times a random variable: somewhere between building the expression and
